@@ -9,7 +9,7 @@ import (
 
 func init() {
 	props["C13"] = &propCfg{Level: "exploration", QuickRuns: 24000, QuickS: 40, ThoroughRuns: 3000000, ThoroughS: 1200, Race: true,
-		Rule: "one case = (combinator, input length around worker/batch/buffer sizes, worker count or pipeline assignment, latency pattern, capacity divisor, scheduling policy + schedule seed) drawn from the run seed; non-trivial = at least 2 items flowed; distinct = distinct (combinator, sizes, capacity divisor, full decision-sequence hash)",
+		Rule: "one case = (combinator, input length around worker/batch/buffer sizes, worker count or pipeline assignment, latency pattern, capacity divisor, scheduling policy + schedule seed) drawn from the run seed; serializer pools also get items that cannot be encoded (NaN property) or decoded (malformed record) at seeded positions (what stands for them is not judged, the other items must come out once each in input order); the lookup batcher also gets a consumer that pauses after every batch while many small batches and timeouts are in flight; non-trivial = at least 2 items flowed; distinct = distinct (combinator, sizes, capacity divisor, full decision-sequence hash)",
 		Assumptions: []string{"harness producers/consumers are correct", "testing/synctest quiescence detection is sound", "scaled channel capacities (simrt.Cap) preserve the code's logic; only constants change"}}
 }
 
@@ -102,7 +102,7 @@ func init() {
 
 func init() {
 	props["C12"] = &propCfg{Level: "exploration", QuickRuns: 6000, QuickS: 50, ThoroughRuns: 600000, ThoroughS: 1500, Race: true,
-		Rule: "one case = (small graph with cycles/self loops/dead ends, a mark/jump program of one of six documented shapes with a counter bounding the depth, optional limit after the loop, capacity divisor, scheduling policy with starve-one aimed at a seeded goroutine + schedule seed, clock advance cadence); non-trivial = the reference result is non-empty; distinct = distinct (graph, program, divisor, decision-sequence hash)",
+		Rule: "one case = (small graph with cycles/self loops/dead ends, a mark/jump program of one of six documented shapes with a counter bounding the depth, optional limit after the loop, capacity divisor, scheduling policy with starve-one aimed at a seeded goroutine + schedule seed, clock advance cadence); 3% of the cases are loop-volume cases: a star whose 1100..2600 leaves each start a chain, so that every pass re-enters that many travelers (step budget about ten times a clean run, the fair-policy re-run decides livelock); non-trivial = the reference result is non-empty; distinct = distinct (graph, program, divisor, decision-sequence hash)",
 		Assumptions: []string{"loop bodies contain traveler-local, order-preserving steps only (as the property states)", "emit=false is generated only with no condition, where documentation and code cannot differ", "livelock is reported only under the fair policy after 1000 progress-free rounds with the clock advancing"}}
 }
 
@@ -126,8 +126,8 @@ func init() {
 
 func init() {
 	props["C04"] = &propCfg{Level: "fault_enumeration", QuickRuns: 5000, QuickS: 50, ThoroughRuns: 400000, ThoroughS: 1500,
-		Rule: "restart: a C03 history with a clean close/reopen after every call (short histories) or at seeded positions, judged after every step against the abstract graph; crash: for EVERY mutating call of a seeded history the top-level key-value writes it issues are counted on a cloned disk and a crash is injected before each of them in turn (complete enumeration of crash points per call), the store is reopened and must show the abstract state before or after the call (graph deletion: any consistent partial state); both bulk-write error behaviours of the drivers are configurations. non-trivial = at least 2 operations; distinct = distinct (history, mode, configuration)",
-		Assumptions: []string{"each top-level write (Set, Delete, DeletePrefix, committed Update/BulkWrite) is atomic and durable when it returns, as the property states", "freezing the simulated disk at the crash point yields exactly the durable state of a process death at that point", "label listings are not compared (recorded C03 findings on independent observables)"}}
+		Rule: "restart: a C03 history with a clean close/reopen after every call (short histories) or at seeded positions, judged after every step against the abstract graph; crash: for EVERY mutating call of a seeded history the top-level key-value writes it issues are counted on a cloned disk and a crash is injected before each of them in turn (complete enumeration of crash points per call), the store is reopened and must show the abstract state before or after the call (graph deletion: any consistent partial state); both bulk-write error behaviours of the drivers are configurations. After every crash whose recovered state equals the abstract state before or after the call, the next three calls of the history and a probe writing new labelled elements are judged against that state (after-recovery). crash-volume: the same enumeration for calls touching hundreds of keys (a hub vertex with 180..1100 incident edges loaded by long batches or one bulk stream; deleting the hub, an edge, the graph). write-error: the same enumeration with the k-th top-level write failing with an I/O error instead of the process dying (server not restarted): an acknowledged call must be fully applied, a failed one leaves the state before or after it, the running server and a server restarted on the same disk must show the same state, the running server goes on correctly, and so does a server restarted cleanly later. non-trivial = at least 2 operations; distinct = distinct (history, mode, configuration)",
+		Assumptions: []string{"each top-level write (Set, Delete, DeletePrefix, committed Update/BulkWrite) is atomic and durable when it returns, as the property states", "freezing the simulated disk at the crash point yields exactly the durable state of a process death at that point", "label listings are not compared (recorded C03 findings on independent observables), but a label of a listed element that is missing from the label listing is"}}
 }
 
 func init() {
@@ -138,7 +138,7 @@ func init() {
 
 func init() {
 	props["C09"] = &propCfg{Level: "exploration", QuickRuns: 4000, QuickS: 50, ThoroughRuns: 400000, ThoroughS: 1500,
-		Rule: "one case = a history of AddField/RemoveField/AddDoc (new and replacing)/RemoveDoc/reopen over 3 fields (one nested), 4 document ids, string terms and numeric terms over sign/magnitude boundary values (+-1e9, +-MaxFloat64, SmallestNonzero, fractions, zero); after every step ~100 query results (term match, field terms, term counts, string term counts, min, max, ascending listing, five numeric windows) are compared with a brute-force scan of the live documents; the streaming query goroutines run under a seeded schedule with scaled channel capacities. non-trivial = at least 2 operations; distinct = distinct operation sequences",
+		Rule: "one case = a history of AddField/RemoveField/AddDoc (new and replacing)/RemoveDoc/reopen over 3 fields (one nested), 4 document ids, string terms and numeric terms over sign/magnitude boundary values (+-1e9, +-MaxFloat64, SmallestNonzero, fractions, zero); after every step ~100 query results (term match, field terms, term counts, string term counts, min, max, ascending listing, five numeric windows) are compared with a brute-force scan of the live documents; the streaming query goroutines run under a seeded schedule with scaled channel capacities. In half of the avoidance-mode cases a seeded subset of the steps is not observed (queries write recounted term counts back; observing after every step hides states in which a mutation meets an invalidated count); seeded numeric windows with bounds from the value pool are added to the fixed ones. index-concurrent: one simulated goroutine inserts and removes documents while one or two others run every query method repeatedly; when all have finished every query is compared with the scan of the final documents, then documents are removed sequentially and everything is compared again. query-volume: streamed queries over more distinct terms than the channels buffer. non-trivial = at least 2 operations; distinct = distinct operation sequences",
 		Assumptions: []string{"numeric window boundaries are not judged (inclusivity undocumented)", "min/max with no numeric term are not judged", "-0.0 is not generated (the index distinguishes it from 0 by bytes, a scan does not)"}}
 }
 
@@ -150,26 +150,26 @@ func init() {
 
 func init() {
 	props["C18"] = &propCfg{Level: "exploration", QuickRuns: 6000, QuickS: 50, ThoroughRuns: 600000, ThoroughS: 1500, Race: true, CrashIsViolation: true,
-		Rule: "server-bulk: one case = an element stream (valid/invalid mix, repeated ids, target graphs g1/g2/a missing graph/a schema graph switching back and forth, lengths 0..20 and around the scaled 100-slot hand-off buffer, optional client stream error) sent through the real GripServer.BulkAdd over kvgraph on the simulated disk under a seeded schedule; final observable state must equal refgraph after adding the valid routable elements one at a time in stream order, InsertCount must equal their number, ErrorCount must be >0 iff something was invalid or unroutable. streambatch: util.StreamBatch with batch sizes 1..100 against recording add functions (order and multiplicity per element type, batch size bound, error reporting). non-trivial = at least 2 elements; distinct = distinct (stream, configuration)",
+		Rule: "server-bulk: one case = an element stream (valid/invalid mix, repeated ids, target graphs g1/g2/a missing graph/a schema graph switching back and forth, lengths 0..20 and around the scaled 100-slot hand-off buffer, optional client stream error; 3% long runs of 1001..4100 distinct elements for one graph) sent through the real GripServer.BulkAdd over kvgraph on the simulated disk under a seeded schedule; final observable state must equal refgraph after adding the valid routable elements one at a time in stream order, InsertCount must equal their number, ErrorCount must be >0 iff something was invalid or unroutable. streambatch: util.StreamBatch with batch sizes 1..100 against recording add functions (order and multiplicity per element type, batch size bound, error reporting). non-trivial = at least 2 elements; distinct = distinct (stream, configuration)",
 		Assumptions: []string{"streams containing edges without an id (server generates one) are judged by counts only", "label listings are not compared (recorded C03 findings)", "the per-element policy filter of accounts.BulkWriteFilter is not in the loop (C05 is not claimed)"}}
 }
 
 func init() {
 	props["C06"] = &propCfg{Level: "exploration", QuickRuns: 10000, QuickS: 50, ThoroughRuns: 1000000, ThoroughS: 1500, CrashIsViolation: true,
-		Rule: "one case = one hostile request against a real GripServer on an empty or small populated graph: Traversal/Submit with a typed program into which hostile steps are spliced (condition values of every JSON kind for every operator incl. missing values and unknown operators, references to undefined marks, empty/duplicate/unnamed/zero-interval/NaN aggregations, negative and inverted ranges, *Null steps followed by anything, jumps to missing marks, empty statements, nil expressions), ResumeJob with hostile extensions, AddVertex/AddEdge with nil or empty elements, BulkAdd streams alternating existing/missing/schema graphs with nil elements, and 19 other handlers on existing/missing/empty/schema graph names; each under a seeded schedule. A panic reaching the top of any goroutine, or a dead worker process, is the violation. distinct = distinct requests",
+		Rule: "one case = one hostile request against a real GripServer on an empty or small populated graph: Traversal/Submit with a typed program into which hostile steps are spliced (condition values of every JSON kind for every operator incl. missing values and unknown operators, references to undefined marks, empty/duplicate/unnamed/zero-interval/NaN aggregations, negative and inverted ranges, *Null steps followed by anything, jumps to missing marks, empty statements, nil expressions), ResumeJob with hostile extensions, AddVertex/AddEdge with nil or empty elements, BulkAdd streams alternating existing/missing/schema graphs with nil elements, and 19 other handlers on existing/missing/empty/schema graph names; each under a seeded schedule. hostile-traversal-batch: 20..40 traversal requests per server drawn as start, optional as(m0), one state changer (null traveler, render, count, path, aggregate, fields, select, unwind, distinct), two or three steps of one theme with consistent mark names, and has() operands that mirror the shape (list, object) of the stored value. A panic reaching the top of any goroutine, or a dead worker process, is the violation. distinct = distinct requests",
 		Assumptions: []string{"grpc-go does not recover handler panics and the repository has no recover(): a panic on any goroutine terminates the server", "requests that merely never finish are not judged here (C07/C12)"}}
 }
 
 func init() {
 	props["C17"] = &propCfg{Level: "exploration", QuickRuns: 5000, QuickS: 60, ThoroughRuns: 500000, ThoroughS: 1500, Race: true, RaceShare: 2, CrashIsViolation: true,
-		Rule: "one case = 2..4 client sessions of 2..6 calls (vertex/edge add and delete on overlapping ids, graph create/delete, one-element bulk streams, traversals, lookups, label and graph listings, schema upload/read, job submit/poll/view/list) against one real GripServer, interleaved by the seeded scheduler at every yield point incl. inside the simulated disk; half of the workers run the race-detector build. Judged: no process death, race reports in repository code (deduplicated by the pair of racing functions), final state explained by some order of the acknowledged edits consistent with each client's order (exact bounded search), every read value was written by some client. non-trivial = at least 2 clients and 2 edits; distinct = distinct (sessions, decision-sequence hash)",
+		Rule: "one case = 2..4 client sessions of 2..6 calls (vertex/edge add and delete on overlapping ids, graph create/delete, one-element bulk streams, traversals, lookups, label and graph listings, schema upload/read, job submit/poll/view/list, caching clients that read a graph's timestamp and then a listing) against one real GripServer, interleaved by the seeded scheduler at every yield point incl. inside the simulated disk; half of the workers run the race-detector build. Judged: no process death, race reports in repository code (deduplicated by the pair of racing functions), final state explained by some order of the acknowledged edits consistent with each client's order (exact bounded search), every read value was written by some client, a cache entry whose timestamp is still the graph's timestamp after quiescence is still the listing. Waiting writers of a sync.RWMutex are announced so that readers wait for them (recursive read locks deadlock as in the real mutex); budget exhaustion is re-run under the fair policy. non-trivial = at least 2 clients and 2 edits; distinct = distinct (sessions, decision-sequence hash)",
 		Assumptions: []string{"the final-state oracle is deliberately weaker than linearizability: the property constrains the final state and per-client order only", "edge ids keep their endpoints and label (the recorded edge re-add finding is excluded), label listings are not compared", "simkv Update transactions are serialisable and top-level writes atomic, as the real engines'"}}
 }
 
 func init() {
 	props["C11"] = &propCfg{Level: "exploration", QuickRuns: 3000, QuickS: 60, ThoroughRuns: 300000, ThoroughS: 1500, CrashIsViolation: true,
-		Rule: "one case = a small or medium graph (result sizes around the 4 serializer workers, their 10-slot queues and the 40-slot merge buffer, scaled) and a sequence of 2..7 job operations: submit a deterministic traversal of any result type (vertices, edges, counts, selections, renders, paths, aggregations) and poll on the simulated clock until COMPLETE, view, resume a job with the rest of a split program, search with unrelated and with extending queries, list, delete, restart the job storage over the same directory; serializer workers optionally slowed by seeded sleeps; all under a seeded schedule. non-trivial = at least 2 operations; distinct = distinct (graph, operations, configuration)",
-		Assumptions: []string{"job files are real files in a scratch directory (no storage seam in jobstorage); process death between file operations is not injected in this version, un-fsynced data loss is not modelled", "programs with limit/skip/range/distinct(field) are not used for jobs (which rows they keep is unspecified)", "the direct traversal through the same server is the reference for stored and resumed rows"}}
+		Rule: "one case = a small or medium graph (result sizes around the 4 serializer workers, their 10-slot queues and the 40-slot merge buffer, scaled) and a sequence of 2..7 job operations: submit a deterministic traversal of any result type (vertices, edges, counts, selections, renders, paths, aggregations) and poll on the simulated clock until COMPLETE, view, resume a job with the rest of a split program, search with unrelated and with extending queries, list, delete, restart the job storage over the same directory; serializer workers optionally slowed by seeded sleeps; all under a seeded schedule. One case in eight carries a row of 64 KiB..1.1 MiB; Submit is called like a gRPC unary handler (its context is cancelled when it returns). jobs-process-death: a crash-free run counts the steps taken inside package jobstorage (file operations, serializer channel operations, lock acquisition and release), then the same seeded run is repeated with the process dying in front of step k (8+1 sampled k per case, every k up to 160 plus the last 12 in half of the thorough cases); the job directory is copied at the moment of death, a new server is started over the copy: jobs seen COMPLETE are listed, complete, readable with identical rows and resumable, acknowledged deletes stay deleted, and every job the restarted server reports COMPLETE stores exactly the rows of its recorded query. jobs-disk-full: file writes of the job store go through a seam; the k-th write (or every write from the k-th on) fails; a job may end in ERROR but may not be reported COMPLETE with other rows than the direct traversal returns, before or after a restart of the job store. non-trivial = at least 2 operations; distinct = distinct (graph, operations, configuration)",
+		Assumptions: []string{"job files are real files in a scratch directory (no storage seam in jobstorage); un-fsynced data loss (power loss) is not modelled, only process death and failing writes", "programs with limit/skip/range/distinct(field) are not used for jobs (which rows they keep is unspecified)", "the direct traversal through the same server is the reference for stored and resumed rows"}}
 }
 
 func init() {
@@ -180,6 +180,6 @@ func init() {
 
 func init() {
 	props["C10"] = &propCfg{Level: "exploration", QuickRuns: 480, QuickS: 70, ThoroughRuns: 60000, ThoroughS: 1800, CrashIsViolation: true,
-		Rule: "kv-ops: one case = 3..27 operations on kvi.KVInterface (Set, Get, HasKey, Delete, DeletePrefix, View scripts of Seek/SeekReverse/Next/Get/prefix scans, Update scripts with reads of own writes and failing callbacks, BulkWrite scripts, clean reopen) over keys from the alphabet {a, b, 0x00, 0xff} with shared prefixes and empty values, executed on each of the four REAL drivers on scratch directories and on a sorted-map model, compared return value by return value and by full content after every step; one driver per case is run twice (determinism). graph-on-drivers: a C03 history on kvgraph over each real driver and over simkv, final observable states compared. non-trivial = at least 2 operations; distinct = distinct operation sequences",
+		Rule: "kv-ops: one case = 3..27 operations on kvi.KVInterface (Set, Get, HasKey, Delete, DeletePrefix, View scripts of Seek/SeekReverse/Next/Get/prefix scans, Update scripts with reads of own writes and failing callbacks, BulkWrite scripts, clean reopen) over keys from the alphabet {a, b, 0x00, 0xff} with shared prefixes and empty values, executed on each of the four REAL drivers on scratch directories and on a sorted-map model, compared return value by return value and by full content after every step; one driver per case is run twice (determinism). graph-on-drivers: a C03 history on kvgraph over each real driver and over simkv, final observable states compared. kv-volume (a fixed share of the seeds): 10001..31000 keys (120000 in the thorough tier) under one prefix and 1..300 under a neighbouring one in one bulk write, DeletePrefix of the first, counts and order by forward scan on the same handle and after a clean reopen. kv-concurrent-bulk (a fixed share of the seeds): 2..6 real goroutines start BulkWrite at the same moment, one callback fails; every callback runs once, every key of a successful call is stored (25 rounds per driver; the Go runtime schedules, so this part can miss but cannot raise a false alarm). non-trivial = at least 2 operations; distinct = distinct operation sequences",
 		Assumptions: []string{"the storage engines are real and not under the scheduler (stated in DESIGN §7 C10): this check is seeded history search with restart as the only injected fault", "iterator Key/Value are compared only while Valid(); error values are not compared, only error/no-error; Next on an invalid iterator and BulkWrite with a failing callback (drivers differ by design: discard vs commit) are not judged"}}
 }
